@@ -30,10 +30,10 @@ fn tiny_case(rng: &mut Rng, pkg: Pkg, comp: Comp) -> ContCase {
     // a very small container (about 1.5-3 KB): 4 contents in a raw and a compressed cluster,
     // one store with variants + an indexed/plain value store, two indexes
     let items = vec![
-        Item { len: 40, ent: Ent::High, hint: Hint::No, src: Src::Mem, dup_of: None },
-        Item { len: 300, ent: Ent::Text, hint: Hint::Yes, src: Src::Mem, dup_of: None },
-        Item { len: 0, ent: Ent::Low4, hint: Hint::No, src: Src::Mem, dup_of: None },
-        Item { len: 120, ent: Ent::Mid6, hint: Hint::Yes, src: Src::Mem, dup_of: None },
+        Item { len: 40, ent: Ent::High, hint: Hint::No, src: Src::Mem, dup_of: None, cat_of: None },
+        Item { len: 300, ent: Ent::Text, hint: Hint::Yes, src: Src::Mem, dup_of: None, cat_of: None },
+        Item { len: 0, ent: Ent::Low4, hint: Hint::No, src: Src::Mem, dup_of: None, cat_of: None },
+        Item { len: 120, ent: Ent::Mid6, hint: Hint::Yes, src: Src::Mem, dup_of: None, cat_of: None },
     ];
     let content = ContentCase { seed: rng.next(), comp, cached: false, items };
     let files = StoreDef {
@@ -56,6 +56,7 @@ fn tiny_case(rng: &mut Rng, pkg: Pkg, comp: Comp) -> ContCase {
         vstores: vec![false, true],
         stores: vec![files],
         indexes: vec![IndexDef { name: "files".into(), store: 0, offset: 0, count: 4 }, IndexDef { name: "tail".into(), store: 0, offset: 1, count: 3 }],
+        defer: 0,
     };
     ContCase { content, dir, pkg, extra: vec![] }
 }
@@ -65,11 +66,11 @@ fn medium_case(rng: &mut Rng) -> ContCase {
     let mut items = vec![];
     for i in 0..1100 {
         let hint = if i % 3 == 0 { Hint::No } else { Hint::Yes };
-        items.push(Item { len: 1 + (i % 7), ent: Ent::Low4, hint, src: Src::Mem, dup_of: None });
+        items.push(Item { len: 1 + (i % 7), ent: Ent::Low4, hint, src: Src::Mem, dup_of: None, cat_of: None });
     }
-    items.push(Item { len: 3_000_000, ent: Ent::Low4, hint: Hint::Yes, src: Src::Mem, dup_of: None });
-    items.push(Item { len: 2_000_000, ent: Ent::Low4, hint: Hint::Yes, src: Src::Mem, dup_of: None });
-    items.push(Item { len: 70_000, ent: Ent::High, hint: Hint::No, src: Src::Mem, dup_of: None });
+    items.push(Item { len: 3_000_000, ent: Ent::Low4, hint: Hint::Yes, src: Src::Mem, dup_of: None, cat_of: None });
+    items.push(Item { len: 2_000_000, ent: Ent::Low4, hint: Hint::Yes, src: Src::Mem, dup_of: None, cat_of: None });
+    items.push(Item { len: 70_000, ent: Ent::High, hint: Hint::No, src: Src::Mem, dup_of: None, cat_of: None });
     let n = items.len();
     let content = ContentCase { seed: rng.next(), comp: Comp::Zstd(1), cached: false, items };
     let files = StoreDef {
@@ -84,7 +85,7 @@ fn medium_case(rng: &mut Rng) -> ContCase {
         sort: None,
         unique_keys: false,
     };
-    let dir = DirCase { seed: rng.next(), vstores: vec![false, true], stores: vec![files], indexes: vec![IndexDef { name: "files".into(), store: 0, offset: 0, count: n as u32 }] };
+    let dir = DirCase { seed: rng.next(), vstores: vec![false, true], stores: vec![files], indexes: vec![IndexDef { name: "files".into(), store: 0, offset: 0, count: n as u32 }], defer: 0 };
     ContCase { content, dir, pkg: Pkg::OneFile, extra: vec![] }
 }
 
@@ -116,8 +117,8 @@ fn loose_case(rng: &mut Rng) -> ContCase {
     let mut c = tiny_case(rng, Pkg::OneFile, Comp::Zstd(1));
     for comp in [Comp::None, Comp::Lz4(0)] {
         let items = vec![
-            Item { len: 60, ent: Ent::High, hint: Hint::No, src: Src::Mem, dup_of: None },
-            Item { len: 200, ent: Ent::Low4, hint: Hint::Yes, src: Src::Mem, dup_of: None },
+            Item { len: 60, ent: Ent::High, hint: Hint::No, src: Src::Mem, dup_of: None, cat_of: None },
+            Item { len: 200, ent: Ent::Low4, hint: Hint::Yes, src: Src::Mem, dup_of: None, cat_of: None },
         ];
         c.extra.push(ContentCase { seed: rng.next(), comp, cached: false, items });
     }
